@@ -26,6 +26,8 @@ CONSTANTS MaxFun,            \* evaluation budget
           RhoendScaleDrop,   \* 1: restarts.rhoend_scale < 1 (rhoend drops one level per restart), 0: scale = 1
           MaxRuns,           \* state constraint on the number of runs
           NdirsInit,         \* growing.ndirs_initial (0 = npt-1, i.e. a full initial set); with fewer directions the set GROWS by one point per iteration
+          NewDirs,           \* growing.num_new_dirns_each_iter: while the set is growing, every iteration (and every safety step) additionally evaluates this many new
+                             \* directions; the trust-region point then REPLACES a point instead of being appended (0 = the default for m >= n)
           WithNoise,         \* noise.quit_on_noise_level: "all values within noise level" may end the run / trigger a restart at the top of an iteration
           RegSteps,          \* regression.num_extra_steps: geometry steps on the furthest points after a successful trust-region step
           WithHuge,          \* TRUE: an objective value of +Inf may come from FINITE residuals whose squares overflow (|r| ~ 1e200): the fit then succeeds although
@@ -75,7 +77,7 @@ Growing == Len(mdl.slots) < mdl.numpts
 
 Init == /\ pc = "x0eval" /\ nf = 0 /\ nx = 0 /\ nruns = 0 /\ mdl = NoModel /\ rho = RhoLevels /\ rhoendL = 0 /\ rhoendC = 0
         /\ softLSR = 0 /\ softLastFopt = 0 /\ hardLSR = 0 /\ best = NoBest /\ exitInfo = NoExit /\ ptval = <<>> /\ ptns = <<>>
-        /\ geomLeft = 0 /\ addLeft = 0 /\ restarts = 0 /\ x0inherit = FALSE /\ ret = NoBest /\ npt = NPT /\ batchlog = <<>> /\ phaseReq = 1 /\ geomDone = {} /\ reg = [left |-> 0, done |-> {}, after |-> "loop"]
+        /\ geomLeft = 0 /\ addLeft = 0 /\ restarts = 0 /\ x0inherit = FALSE /\ ret = NoBest /\ npt = NPT /\ batchlog = <<>> /\ phaseReq = 1 /\ geomDone = {} /\ reg = [left |-> 0, done |-> {}, after |-> "loop", grow |-> 0]
 
 \* ------------------------------------------------------------------ evaluate_objective (controller.py:625-659)
 \* One batch: req samples requested; ran = min(req, MaxFun - nf) are run.  v1 = objective of the first sample,
@@ -174,7 +176,8 @@ ReduceRho == IF RhoDropAny THEN rho' \in {r \in rhoendC..(rho - 1) : TRUE} /\ rh
 Safety ==
   /\ pc = "safety"
   /\ \/ \* while growing (solver.py:366-442): a new direction is evaluated and APPENDED; nothing else happens in a safety step
-        /\ Growing /\ EvalInto(Len(mdl.slots) + 1, "loop") /\ UNCHANGED Radii
+        \* (with growing.num_new_dirns_each_iter = d > 1, d directions: the remaining d - 1 in GrowAdd)
+        /\ Growing /\ EvalInto(Len(mdl.slots) + 1, IF NewDirs <= 1 THEN "loop" ELSE "growadd") /\ UNCHANGED Radii
      \/ \* not done with rho and a far point exists: geometry step on it
         /\ ~Growing /\ \E k \in 1..Len(mdl.slots) : k # mdl.kopt /\ EvalInto(k, "loop")
         /\ UNCHANGED Radii
@@ -190,7 +193,8 @@ Safety ==
                 /\ Counted(req, v, v)
                 /\ mdl' = IF Ran(req) > 0 THEN SavePointM(mdl, v, Ran(req), nx + 1) ELSE mdl
                 /\ RunExit(IF BatchExit(req, v) # NoExit THEN BatchExit(req, v) ELSE Exit("success", "rhoend"))
-  /\ UNCHANGED <<ret, restarts, phaseReq, reg>> /\ UNCHANGED Hard /\ UNCHANGED Soft
+  /\ reg' = IF pc' = "growadd" THEN [reg EXCEPT !.grow = NewDirs - 1] ELSE reg
+  /\ UNCHANGED <<ret, restarts, phaseReq>> /\ UNCHANGED Hard /\ UNCHANGED Soft
 
 \* Trust-region step (solver.py:533-700)
 TRStep ==
@@ -212,10 +216,11 @@ TRStep ==
                    /\ RestartOrExit(Exit("tr_increase", "tr_increase"))
                 \/ \* ratio > 0 iff the new value beats the incumbent; slot chosen by the kernel (the incumbent only when ratio > 0)
                    \E k \in 1..(Len(mdl.slots) + 1) :
-                     /\ (Growing <=> k = Len(mdl.slots) + 1)      \* while growing (full-rank interpolation) the trial point is appended, never replaces
+                     /\ ((Growing /\ NewDirs = 0) <=> k = Len(mdl.slots) + 1)      \* while growing (full-rank interpolation) the trial point is appended, never replaces;
+                                                                                     \* with new directions every iteration it replaces, and the new directions are appended
                      /\ (k = mdl.kopt => Lt(v, ObjOpt(mdl)))
                      /\ mdl' = IntoSlot(mdl, k, v1, v, Ran(req), nx + 1)
-                     /\ \/ Growing /\ pc' = "loop" /\ UNCHANGED <<exitInfo, nruns>>     \* growing: next iteration whatever the ratio (no geometry steps, no rho update)
+                     /\ \/ Growing /\ pc' = (IF NewDirs > 0 THEN "growadd" ELSE "loop") /\ UNCHANGED <<exitInfo, nruns>>     \* growing: next iteration whatever the ratio (no geometry steps, no rho update)
                         \* ratio > 0 (the value improved) and regression steps are configured: they come first, whatever the size of the ratio (solver.py:781-801)
                         \/ ~Growing /\ Lt(v, ObjOpt(mdl)) /\ RegSteps > 0 /\ pc' = "regress" /\ UNCHANGED <<exitInfo, nruns>>
                         \/ ~Growing /\ Lt(v, ObjOpt(mdl)) /\ RegSteps = 0 /\ pc' = "loop" /\ UNCHANGED <<exitInfo, nruns>>     \* successful step (ratio >= eta1)
@@ -225,9 +230,22 @@ TRStep ==
                         \/ ~Growing /\ ~Lt(v, ObjOpt(mdl)) /\ pc' = "trtail" /\ UNCHANGED <<exitInfo, nruns>>
                         \/ ~Growing /\ Lt(v, ObjOpt(mdl)) /\ RegSteps = 0 /\ pc' = "trtailpos" /\ UNCHANGED <<exitInfo, nruns>>
   \* entering the regression phase: the furthest-point list is computed once, from the incumbent AFTER the update; one sample request for the phase
-  /\ IF pc' = "regress" THEN \E a \in {"loop", "trtailpos"} : reg' = [left |-> MinI(RegSteps, Len(mdl'.slots) - 1), done |-> {mdl'.kopt}, after |-> a] ELSE reg' = reg
+  /\ IF pc' = "regress" THEN \E a \in {"loop", "trtailpos"} : reg' = [left |-> MinI(RegSteps, Len(mdl'.slots) - 1), done |-> {mdl'.kopt}, after |-> a, grow |-> 0]
+     ELSE IF pc' = "growadd" THEN reg' = [reg EXCEPT !.grow = NewDirs] ELSE reg' = reg
   /\ phaseReq' \in (IF pc' = "regress" THEN 1..MaxSamples ELSE {phaseReq})
   /\ UNCHANGED <<ret, restarts>> /\ UNCHANGED Radii /\ UNCHANGED Hard /\ UNCHANGED Soft
+
+\* new directions while growing (controller.py:418-457, called from solver.py:427 and 751-775): each is evaluated and appended while the set is
+\* incomplete; once it is complete the remaining ones replace a point chosen like a trust-region point
+GrowAdd ==
+  /\ pc = "growadd"
+  /\ IF reg.grow = 0
+     THEN pc' = "loop" /\ NoEval /\ UNCHANGED <<mdl, exitInfo, nruns, reg>>
+     ELSE /\ \/ Growing /\ EvalInto(Len(mdl.slots) + 1, "growadd")
+             \/ ~Growing /\ \E k \in 1..Len(mdl.slots) : k # mdl.kopt /\ EvalInto(k, "growadd")
+             \/ ~Growing /\ RestartOrExit(Exit("linalg", "choose")) /\ NoEval /\ UNCHANGED mdl
+          /\ reg' = [reg EXCEPT !.grow = reg.grow - 1]
+  /\ UNCHANGED <<ret, restarts, phaseReq>> /\ UNCHANGED Radii /\ UNCHANGED Hard /\ UNCHANGED Soft
 
 \* regression: move the furthest points by geometry steps (solver.py:769-801, controller.py:871-888)
 Regress ==
@@ -327,7 +345,7 @@ RunEnd ==
 
 Done == pc = "done" /\ UNCHANGED vars
 
-Next == X0Eval \/ InitPoint \/ NoiseExit \/ Interpolate \/ Safety \/ TRStep \/ Regress \/ TRTail \/ SoftAdmit \/ SoftGeom \/ RunEnd \/ Done
+Next == X0Eval \/ InitPoint \/ NoiseExit \/ Interpolate \/ Safety \/ TRStep \/ GrowAdd \/ Regress \/ TRTail \/ SoftAdmit \/ SoftGeom \/ RunEnd \/ Done
 Spec == Init /\ [][Next]_vars
 FairSpec == Spec /\ WF_vars(Next)
 RunsBound == nruns <= MaxRuns
@@ -367,7 +385,7 @@ C07_DocumentedFlag == pc = "done" => exitInfo.flag # "auto"
 C11_JacNames == (pc = "done" /\ best.hasjac) => \A i \in 1..Len(best.jacen) : best.jacen[i] = 0 \/ best.jacen[i] \in Pts
 C11_Snapshot == \A i \in 1..Len(mdl.jacen) : mdl.jacen[i] = 0 \/ mdl.jacen[i] \in Pts
 \* --- C18 (levels)
-C18_Radii == pc \in {"loop", "safety", "tr", "trtail", "trtailpos", "regress"} => (rho <= RhoLevels /\ rho >= rhoendL)
+C18_Radii == pc \in {"loop", "safety", "tr", "trtail", "trtailpos", "regress", "growadd"} => (rho <= RhoLevels /\ rho >= rhoendL)
 \* --- termination (precondition of everything; fails as found: F-14)
 Termination == <>(pc = "done")
 TypeOK == /\ nf \in 0..(MaxFun + MaxSamples) /\ nx \in 0..(MaxFun + 1) /\ mdl.kopt \in 1..(NPT + IncNpt + 1)
